@@ -321,6 +321,12 @@ impl<M: Manager, W: From<Object<M>>> Pool<M, W> {
     ///
     /// See [`PoolError`] for details.
     pub async fn timeout_get(&self, timeouts: &Timeouts) -> Result<W, PoolError<M::Error>> {
+        // A recycle timeout can not be applied without a runtime. Report this
+        // upfront: otherwise every idle object that is tried would be treated
+        // as having failed to recycle and be discarded silently.
+        if self.inner.runtime.is_none() && timeouts.recycle.is_some() {
+            return Err(PoolError::NoRuntimeSpecified);
+        }
         let _ = self.inner.users.fetch_add(1, Ordering::Relaxed);
         let users_guard = DropGuard(|| {
             let _ = self.inner.users.fetch_sub(1, Ordering::Relaxed);
